@@ -207,12 +207,20 @@ func c14RunLRU(c c14Case, st *fw.Stats) []fw.Viol {
 		frontier = frontier[1:]
 		for _, op := range ops {
 			impl := rux.NewCachedRoutes(c.Cap)
-			for _, h := range n.hist {
-				c14Apply(impl, h)
+			if pv := try(func() {
+				for _, h := range n.hist {
+					c14Apply(impl, h)
+				}
+			}); pv != nil {
+				addViol("lru:panic", fmt.Sprintf("capacity=%d history=[%s]: panicked: %v", c.Cap, histString(n.hist), pv))
+				continue
 			}
 			pre, _, _ := c14Snap(impl)
 			model := parseModelSnap(c.Cap, pre)
-			got := c14Apply(impl, op)
+			var got string
+			if pv := try(func() { got = c14Apply(impl, op) }); pv != nil {
+				got = fmt.Sprintf("PANIC: %v", pv)
+			}
 			want, alts := modelApply(model, op)
 			post, ll, ml := c14Snap(impl)
 			st.Transitions++
